@@ -1145,6 +1145,19 @@ func (g *gen) genBigList(n int) {
 	}
 	for c := 0; c < n; c++ {
 		sh := shapes[g.r.Intn(len(shapes))]
+		if g.chance(0.12) {
+			// one element as wide as a length-prefixed value can be: 65533..65535 bytes, i.e. a width of 65535..65537
+			// (a cursor that keeps widths in 16 bits stops advancing exactly there)
+			ln := []int{65533, 65534, 65535}[g.r.Intn(3)]
+			if body := g.bigStringBody(sh.kind, ln); body != nil {
+				g.emit("RESET")
+				g.emit("NOTE case=biglist kind=%s list=wide-element count=%d cut=0", sh.kind, ln)
+				g.emit("NEW p %s", sh.kind)
+				g.emit("DEC p %s", hxd(body))
+				g.emit("RD x %s sched=- eofwd=0 fail=eof calls=1", hxd(reframe(sh.first, body)))
+				continue
+			}
+		}
 		count := 600 + g.r.Intn(1000)
 		if g.chance(0.08) {
 			count = 3000 + g.r.Intn(1500)
